@@ -22,7 +22,7 @@ sync_lane() {
   rsync -a --delete --exclude 'sim/target' --exclude '.git' --exclude 'replays' --exclude 'evidence' \
         --exclude 'seeded' --exclude 'seeded_incoming' /verif/ $L/verif/
   mkdir -p $L/verif/evidence $L/verif/replays
-  sed -i "s#/repo/#$L/repo/#g" $L/verif/sim/Cargo.toml $L/verif/sim/src/main.rs
+  sed -i "s#/repo/#$L/repo/#g" $L/verif/sim/Cargo.toml $L/verif/sim/src/main.rs $L/verif/sim/ripcli/Cargo.toml $L/verif/sim/ripcli/src/lib.rs
   git -C $L/repo reset -q --hard "$(git -C /repo rev-parse HEAD)"
   git -C $L/repo clean -fdq -e target >/dev/null 2>&1
 }
@@ -65,6 +65,7 @@ case "$cmd" in
     for name in $names; do
       id=${name%%-*}; n=${name##*-}; prop=$(echo $id | sed 's/[a-z]$//')
       p=/verif/seeded/$name/patch.diff
+      [ -f "$p" ] || p=/verif/seeded_incoming/$id/$n/patch.diff
       [ -f "$p" ] || { echo "$name NO-PATCH" >> $sum; continue; }
       fb=$(grep -E "^$name " /verif/tools/detect_fallback.txt 2>/dev/null | cut -d' ' -f2-)
       result="MISSED"
